@@ -585,6 +585,33 @@ func c02Derive(c *Ctx) {
 	c02Outcome(c)
 }
 
+// freshAppendCopy: v is append(make([]byte, 0, …), p1...) — the bytes of p1 appended to a fresh empty slice, a copy.
+func freshAppendCopy(b *ana.Builder, v ssa.Value, t *ana.Term) bool {
+	if t == nil || t.String() != "concat(p1)" {
+		return false
+	}
+	for {
+		switch x := v.(type) {
+		case *ssa.MakeInterface:
+			v = x.X
+			continue
+		case *ssa.ChangeType:
+			v = x.X
+			continue
+		}
+		break
+	}
+	call, ok := v.(*ssa.Call)
+	if !ok || ana.CalleeName(&call.Call) != "builtin.append" || len(call.Call.Args) != 2 {
+		return false
+	}
+	switch b.Root(call.Call.Args[0]).(type) {
+	case *ssa.MakeSlice, *ssa.Alloc:
+		return true // the destination's backing array is allocated here; p1 cannot alias it
+	}
+	return false
+}
+
 func isHmacSite(sites []ssa.CallInstruction, ci ssa.CallInstruction) bool {
 	for _, x := range sites {
 		if x == ci {
@@ -1069,6 +1096,7 @@ func c02Eddsa(c *Ctx) {
 			}
 			vt := b.Of(e.Results[0], e.Instr)
 			_, ok := ana.MatchAny(vt, "slice(obj(alloc<[32]byte>, call<builtin.copy>(slice(self, 0, 32), p1)), 0, 32)", "obj(makeslice<[]byte>(32, 32), call<builtin.copy>(self, p1))")
+			ok = ok || freshAppendCopy(b, e.Results[0], vt)
 			r.Check(ok && b.Of(e.Results[1], e.Instr).Is("nil"), "C02.eddsa-keys.new-private-key", c.ipos(e.Instr), "key = copy of the 32 bytes, never an error: %s", short(vt.String(), 160))
 		}
 	}
@@ -1102,6 +1130,7 @@ func c02Eddsa(c *Ctx) {
 			}
 			vt := b.Of(e.Results[0], e.Instr)
 			_, ok := ana.MatchAny(vt, "slice(obj(alloc<[32]byte>, call<builtin.copy>(slice(self, 0, 32), p1)), 0, 32)", "obj(makeslice<[]byte>(32, 32), call<builtin.copy>(self, p1))")
+			ok = ok || freshAppendCopy(b, e.Results[0], vt)
 			r.Check(ok && b.Of(e.Results[1], e.Instr).Is("nil"), "C02.eddsa-keys.seed-shift", c.ipos(e.Instr), "ed25519 child key = I_L (copy of the 32 bytes), independent of the parent key: %s", short(vt.String(), 160))
 		}
 	}
